@@ -1476,8 +1476,10 @@ def _bernoulli_keyful_sample(key, probs, sample_shape=()):
     )
 
 
-def _geometric_keyful_sample(key, probs, sample_shape=()):
-    return tfd.Geometric(probs=probs).sample(seed=key, sample_shape=sample_shape)
+def _geometric_keyful_sample(key, logits, sample_shape=()):
+    # Same positional binding as `geometric = tfp_distribution(tfd.Geometric)`,
+    # whose sampler and logpdf this estimator pairs with (first parameter: logits).
+    return tfd.Geometric(logits).sample(seed=key, sample_shape=sample_shape)
 
 
 def _normal_keyful_sample(key, loc, scale, sample_shape=()):
